@@ -12,6 +12,7 @@ var (
 	timeType = reflect.TypeOf(time.Time{})
 
 	ErrFieldDescModif = errors.New("field descriptor changed")
+	ErrUnknownKeyType = errors.New("unknown key type")
 )
 
 type FieldDescriptor struct {
@@ -33,6 +34,19 @@ func (d *FieldDescriptor) cast() string {
 	default:
 		panic(fmt.Sprintf("unkwnown type to cast %s", d.Type))
 	}
+}
+
+// castOrErr returns the cast of the field or an error if the field
+// cannot be indexed. It is used to validate data which does not come from
+// the code (schema loaded from disk)
+func (d *FieldDescriptor) castOrErr() (cast string, err error) {
+	switch d.Type {
+	case "int", "int8", "int16", "int32", "int64", "time.Time",
+		"uint", "uint8", "uint16", "uint32", "uint64",
+		"float32", "float64", "string":
+		return d.cast(), nil
+	}
+	return "", fmt.Errorf("%w %s", ErrUnknownKeyType, d.Type)
 }
 
 func (d *FieldDescriptor) Transform(o interface{}) {
